@@ -167,6 +167,22 @@ PROPS["C11"] = {
     "level_text": "The real monitor, disconnect handler, reconnect verification and stop code run symbolically with notification instants and the grace period as solver variables: 'never demoted by the grace mechanism before lastDisconnect+G' and 'demoted exactly then' are linear-arithmetic obligations checked at the flag change itself; deadlocks (self-lock, lock-order cycles that the explored schedules hit) and crashes are executor events.",
     "level_note": "Bounded notification sequences; reductions R1/R2 with the Logger as an additional switch point inside the handlers' critical sections.",
 }
+PROPS["C14"] = {
+    "groups": [{"run": "^vpH_C14_"}],
+    "bounds": {"quick": "adapter layer only: natsKeyValueAdapter.{Create,Update,Get,Delete,Watch}, natsEntryAdapter, natsWatcherAdapter.{Updates,Stop} against a stub of nats.KeyValue / nats.KeyWatcher: key (string), value (abstract bytes), revisions and results symbolic, success or error; the watcher emits every sequence of 1-4 entries / nil markers, optionally closes, and the consumer calls Updates() before every receive"},
+    "outside": "THE JETSTREAM HALF OF THE PROPERTY: that a real JetStream KV bucket (nats.go client + nats-server, ~10^5 lines behind sockets and timers) implements create-if-absent, revision-checked update, get-latest and ordered watch, and that the reference store used by the other checks coincides with it, cannot be encoded by this technique and is ASSUMED; the claim is limited to 'the adapter adds nothing and loses nothing'",
+    "assumptions": ["JetStream KV semantics = the reference store stub (DESIGN 2.4, appendix F)"],
+    "level_text": "Partial claim. The adapter methods are executed symbolically against a stub client: each issues exactly one call of the corresponding client method with identical arguments and returns its results unchanged; every emitted watch sequence within the bound is received exactly once, in order, through one channel with at most one forwarding goroutine.",
+    "level_note": "Adapter layer only; the store contract of JetStream itself is an assumption of every other check, not something this check decides.",
+}
+PROPS["C20"] = {
+    "groups": [{"run": "^vpH_C20_T_"}],
+    "bounds": {"quick": "three scenario families with happens-before tracking switched on: (1) Status/IsLeader/Token/LeaderID/ValidateToken/ValidateTokenOrDemote and OnPromote/OnDemote registration against heartbeat, validation, watcher and a demotion; (2) Stop / StopWithContext and restart, placed by the explorer, against disconnect/reconnect/disconnect notifications and the grace timer; (3) Stop / StopWithContext placed by the explorer against a follower's acquisition round, callback registration and Status; tracked memory: every plain (non-atomic) field of kvElection, disconnectHandler and natsConnectionMonitor"},
+    "outside": "races inside dependencies; torn multi-word observations; accesses ordered only by sequentially consistent atomics are treated as ordered (Go memory model for sync/atomic)",
+    "assumptions": ["happens-before edges: go statement, channel send/receive/close, mutex unlock->lock, WaitGroup Done->Wait, atomic store->load of the same cell, sync.Once, timer creation->callback, context cancel->Done/Err observed"],
+    "level_text": "Vector-clock happens-before tracking inside the executor: two conflicting plain accesses to a tracked field that are unordered on any explored path are a race event, identified by field and the pair of accessing functions, independent of where exactly the explorer scheduled them; each reported pair is confirmed with the Go race detector on the natively replayed scenario (go test -race).",
+    "level_note": "Race events only for the tracked structs; bounded scenario families; the executor's model of the synchronisation primitives is trusted.",
+}
 PROPS["S00"] = {"groups": [{"run": "^vpH_S00_"}], "level_text": "engine smoke test", "level_note": ""}
 
 NOT_APPLICABLE = {}
